@@ -17,6 +17,41 @@ CHECKS = {
              "surrogateescape being byte-transparent (exercised, not proved).",
         tech="Coq proof by structural induction (layout language, chunk list) + source-to-Coq translator + differential correspondence",
     ),
+    "C02": dict(
+        text="PARTIAL. A hand-written Coq model of the whole rich pipeline (decode context, the seven rich section "
+             "transcoders over the generated layouts / flag / enum / trigger tables, the five rebuilders, save) is tied to "
+             "the implementation BYTE FOR BYTE on generated whole maps and the fixtures. Proved about it: every flag word "
+             "keeps exactly its defined bits, location slots round-trip under the last-id guard, unknown / unsupported "
+             "entries and unmodelled sections are untouched. The full statement (spec_view preserved) is false of the "
+             "unchanged code outside four recorded findings; it is judged per map by an independent reader of the bytes "
+             "before and after, every difference matched against the recorded finding predicates.",
+        ref="DESIGN.md 5.9",
+        note="Known findings: mrgn-64-slots, orphan-weapons-zeroed, interior-gap-compacted, unused-fields-zeroed. The "
+             "independent reader is tools/scenarios.py (format description + the Coq spec tables), not richchk.",
+        tech="Coq proof (section-level round-trip lemmas, partial) + byte-exact correspondence of a full pipeline model + independent-reader oracle",
+    ),
+    "C03": dict(
+        text="PARTIAL. Same pipeline model, tied byte for byte. Proved: MRGN and UPRP slot codecs are the identity in editor "
+             "form (reserved bits clear, last-id references, owner 0 — editor-prefilled slots included), unmodelled sections "
+             "come back identical in place. Byte identity of whole editor-form maps and idempotence of the cycle for every "
+             "decodable map (editor-form and non-canonical) are checked on the implementation per map; the three places "
+             "where the unchanged code is not byte-identical are recorded findings with replayed witnesses.",
+        ref="DESIGN.md 5.10",
+        note="Known findings: mrgn-64-slots (fixture test-chkjson-scm.chk), upus-recomputed (fixture demon_lore), "
+             "orphan-weapons-zeroed. The whole-map theorem is stated (C03_full_statement) but not proved.",
+        tech="Coq proof (slot-level round trips, partial) + byte-exact correspondence of the pipeline model + byte-identity / idempotence oracle",
+    ),
+    "C04": dict(
+        text="PARTIAL. Coq theorem: for every supported action type and ANY lookups, each authored argument is written "
+             "through its codec into the record field the SPECIFICATION table names, the type byte is the type's number, "
+             "unused fields are zero (C05's generic theorem pushed through the public encode); authored strings get ids "
+             "resolving to them (C08) and new objects free slots of their own (C09). The end-to-end claim is checked on the "
+             "implementation: authored scenarios over all 51+22 types, read back by an independent reader resolving every "
+             "reference to content; the pipeline model reproduces the saved bytes exactly.",
+        ref="DESIGN.md 5.11",
+        note="Guards: 7-bit strings, hit points multiples of 1/256, no weapon shared between customised units (F20).",
+        tech="Coq proof (field-level theorem for all types; composition of C05/C08/C09 lemmas, partial) + byte-exact model correspondence + independent-reader oracle",
+    ),
     "C05": dict(
         text="Coq theorems: the (argument, codec, record field) tables read from the source of all 51 action and 22 "
              "condition transcoders equal the hand-transcribed Scenario.chk appendix tables (same type numbers, model "
@@ -40,6 +75,17 @@ CHECKS = {
         note="Trusted: coq/spec/SpecLayouts.v and tools/sections.py SPEC_FULL (two hand transcriptions of the format), "
              "translator, kernel.",
         tech="Coq proof (generic offset theorem by induction on layouts; table equality by computation) + translator + sentinel correspondence",
+    ),
+    "C07": dict(
+        text="PARTIAL. Coq theorems (the one-step facts the Frozen invariant is an induction over): added triggers are "
+             "appended (existing ones keep content and position), every string id keeps its text through the save path's "
+             "rebuild, slots handed to new locations / unit-property sets were empty, sections without a rich model keep "
+             "place and bytes; and a refutation on the model of the recorded finding (split TRIG sections). Random edit "
+             "sequences are run on the implementation and compared slot by slot with the save of the unedited map by an "
+             "independent reader; the pipeline model reproduces every saved map byte for byte.",
+        ref="DESIGN.md 5.12",
+        note="Known finding: split-trig-sections (F19).",
+        tech="Coq proof (one-step invariance lemmas, partial) + byte-exact model correspondence over edit sequences + independent-reader oracle",
     ),
     "C08": dict(
         text="Coq theorem C08_add_strings_correct about a hand model of the STR/STRx editors (w = 2 | 4): for every "
@@ -76,6 +122,29 @@ CHECKS = {
         note="Order independence of the string table is by construction (lists / OrderedDicts only) and is covered by the "
              "multi-process comparison, not by a theorem. Known finding F18 (two authored switches claiming one index).",
         tech="Coq proof (permutation invariance of the allocation engine) + multi-process hash-seed differential",
+    ),
+    "C10": dict(
+        text="Coq theorems over the pipeline model: for every decoded map, every position holding an unmodelled section "
+             "and ANY edits leaving that position alone, the save puts the very same section there; an action / condition "
+             "whose type byte is outside the enumeration, or inside it without a transcoder, is kept as the raw record by "
+             "decode and written back field for field by encode, for any lookups. Tie: maps with unknown / unsupported "
+             "content plus random edits, byte ranges compared on the implementation, and the model reproduces the saved "
+             "bytes exactly.",
+        ref="DESIGN.md 5.13",
+        note="UPUS is recognised and recomputed (finding F17, reported under C03), so it is not in the unmodelled set.",
+        tech="Coq proof (positional pass-through by induction over the section list; raw-entry round trip) + byte-exact model correspondence",
+    ),
+    "C11": dict(
+        text="Coq theorems for EVERY rich content (any list lengths, integers, indices): if the trigger section is emitted "
+             "at all it is a whole number of 2400-byte triggers with 16 conditions, 64 actions, 27 player flags (else the "
+             "call raised); the rich encoders always lay out 255 / 64 / 64 / 512 slots; a value of a layout's shape encodes "
+             "to exactly the layout's size and a strict array of another length raises. The reference rules (every written "
+             "id refers to an existing non-empty entry, offsets reach a NUL, UPUS agrees) are judged by an independent "
+             "validator on degenerate scenarios; the pipeline model agrees with the implementation on all of them "
+             "(bytes or exception).",
+        ref="DESIGN.md 5.14",
+        note="Two defects found and repaired (17+/65+ entries; out-of-range location index).",
+        tech="Coq proof (size theorems over the layout language and the rich encoders) + byte-exact model correspondence + independent validator",
     ),
     "C12": dict(
         text="Coq theorems over tables regenerated from the source on every run: complete in-kernel sweeps of all 256 / 65536 "
